@@ -121,12 +121,21 @@ theorem convert_int (ty : Ty) (st : Nat) (n : Int) :
     simp
 
 theorem assign_typed (ty : Ty) (n : Int) (t : Nat) : assign (.int ty.tag n) t = .int ty.tag n := by
-  have h1 : ∀ ty : Ty, ty.tag ≠ tUntyped ∧ ty.tag ≠ tNil := by intro ty; cases ty <;> decide
+  have h1 : ∀ ty : Ty, ty.tag ≠ tUntyped ∧ ty.tag ≠ tNil ∧ ty.tag ≠ tF64 := by intro ty; cases ty <;> decide
   unfold assign
   simp only [Val.tag]
   by_cases h : ty.tag = t
   · simp [h]
-  · simp [h, (h1 ty).1, (h1 ty).2]
+  · simp [h, (h1 ty).1, (h1 ty).2.1, (h1 ty).2.2]
+
+/-- a float64 that reaches an integer slot (in a valid program: a constant spelled like a float, `1e6` or `2.0`)
+    takes the slot's type, wrapping like every conversion to that type -/
+theorem assign_float_const (ty : Ty) (x : Float) :
+    assign (.flt x) ty.tag = .int ty.tag (GoNum.conv ty (f2i x)) := by
+  cases ty <;>
+  · simp only [assign, Val.tag, Val.toInt, Ty.tag, t_u8, t_i8, t_u32, t_i32, t_f64, t_unt, GoNum.conv, GoNum.toZ, GoNum.ofZ,
+      Ty.width, Ty.signed, wrapS, wrapU]
+    simp
 
 theorem complement_typed (ty : Ty) (x : Int) :
     complement (.int ty.tag x) = some (.int ty.tag (GoNum.toZ ty (GoNum.ofZ ty x ^^^ BitVec.allOnes ty.width))) := by
@@ -275,3 +284,4 @@ end Goat.Props.C04
 #print axioms Goat.Props.C04.add_wraps
 #print axioms Goat.Props.C04.div_truncates
 #print axioms Goat.Props.C04.lt_typed
+#print axioms Goat.Props.C04.assign_float_const
